@@ -166,6 +166,9 @@ class _FuncInline(SiteRewriter):
             self.gensym.reserve(*def_use.names())
         else:
             ast = e.fn.ast
+            # a renamed local of the callee must not take the name of one of
+            # its free variables
+            self.gensym.reserve(*ast.free_vars)
 
         # one trailing return, as `_refuses` established of the callee before
         # this site was counted; recursive inlining preserves it
